@@ -9,6 +9,8 @@ def main(argv):
     rep = vlib.Report(PID, 'fault_enumeration', argv)
     vlib.build_harness()
     pp.run(rep, PID, common.pipeline_cfgs(rep, 'faults'), modes='ctl-unsafe,ctl-safe,sync')
+    # faults inside the FINAL OBSERVER's own callbacks (value callback at invocation 0..1, terminal callback), every instance, every script
+    pp.run(rep, PID, common.pipeline_cfgs(rep, 'observer-faults'), modes='ctl-unsafe,sync')
     # creation operators incl. a synchronous source whose teardown / finalizer panics, subscribed directly: nothing escapes into the Subscribe call
     parts_creation.run(rep, PID, rep.tier == 'thorough')
     # kernel traces with panicking teardowns / contended terminals: no call may hang (a lock left held) - the watchdog's "hang" event is unexplainable
@@ -19,7 +21,7 @@ def main(argv):
                                           'k-th invocation (k<=2) of the user callback of stage 1 or 2; expected: the values before the fault, then exactly one Error that '
                                           'still matches the cause, nothing afterwards, no panic in the caller, follow-up notifications still handled (no lock left held); '
                                           'non-trivial = the planned fault position is actually reached')
-    rep.assumptions += ['faults inside the final observer callbacks and inside error/completion callbacks of Tap are not enumerated yet']
+    rep.assumptions += ['fault positions: subscribe function of the source, value callbacks of the operators, the three callbacks of the final observer; one fault per run']
     return rep.finish()
 
 
